@@ -532,7 +532,14 @@ func runC45(c *an.Ctx) {
 		}
 	}
 	nFb := 0
-	fFallback := p.Field(pk, "Client", "fallbackFunc")
+	// the fallback: the Client field of type func() *Config
+	var fFallback *types.Var
+	if cn := p.Named(pk, "Client"); cn != nil {
+		fFallback = c15One(c15FieldsWhere(c15StructOf(cn), func(v *types.Var) bool {
+			sig, ok := v.Type().Underlying().(*types.Signature)
+			return ok && sig.Params().Len() == 0 && sig.Results().Len() == 1 && an.TypeIs(sig.Results().At(0).Type(), pk, "Config")
+		}))
+	}
 	for _, f := range fns {
 		if fFallback == nil {
 			break
@@ -696,7 +703,19 @@ func runC45(c *an.Ctx) {
 	}
 
 	// ---- O5: cleanup keeps the newest cacheSize >= 1 files
-	fSize := p.Field(pk, "Client", "cacheSize")
+	// the number of versions kept: the int field of Client written by the exported option WithCacheSize
+	var fSize *types.Var
+	if ctor := p.Func(pk, "", "WithCacheSize"); ctor != nil {
+		for _, cl := range an.WithClosures(ctor) {
+			an.Instrs(cl, func(in ssa.Instruction) {
+				if st, ok := in.(*ssa.Store); ok {
+					if fl, _ := an.FieldOf(st.Addr); fl != nil && c15IsIntT(fl.Type()) {
+						fSize = fl
+					}
+				}
+			})
+		}
+	}
 	if c.Need(fSize != nil, "autoconf.Client.cacheSize") {
 		nRm := 0
 		for _, f := range fns {
